@@ -23,6 +23,7 @@ TESTIFY_PATH = "github.com/stretchr/testify/mock"
 # ---- guard lists: mirror coq/Gen/Skeleton.v (tf_taboo, mt_taboo, tmpl_var_names); compared with Coq on every run
 TF_TABOO = ["_mock", "_e", "tmpRet", "_va", "_i", "_ca", "len", "make", "append", "panic", "nil", "mock"]
 MT_TABOO = ["mock", "callInfo", "append", "nil", "panic"]
+BUILTINS = ["len", "make", "append", "panic", "nil"]
 TMPL_VARS = {"testify": ["_mock", "_m", "_e", "_c", "t", "mock", "tmpRet", "_va", "_i", "_ca", "run", "args", "variadicArgs", "i", "a"],
              "matryer": ["mock", "callInfo", "calls"]}
 # exported methods and fields of testify's mock.Mock v1.10.0 plus the generated EXPECT: the mock's own API
@@ -294,7 +295,8 @@ def guards_of(pd, cfg):
                 u = t["ens_u"]
                 if not u["ok"] or set(u["bare"]) & (set(torig) | {"comparable"}):
                     g.append("mt-ensure-generic")
-        tvars = set(TMPL_VARS[tmpl])
+        gen = {i["struct"]} | ({i["struct"] + "_Expecter"} | {"%s_%s_Call" % (i["struct"], mm["name"]) for mm in i["methods"]} if tmpl == "testify" else set())
+        tvars = set(TMPL_VARS[tmpl]) | set(BUILTINS) | gen
         if (cq | cb | set(tdecl)) & tvars:
             g.append("type-named-like-template-local")
         for m in i["methods"]:
